@@ -19,6 +19,7 @@
 
 #include <cfloat>
 #include <cerrno>
+#include <exception>
 #include <sstream>
 
 using namespace vp;
@@ -897,7 +898,9 @@ static std::string case_variant(Ctx &c, const NameEnt &ne) {
 struct World_ {  // everything a case owns
   int flavour, kind;
   std::vector<Obj *> objs;
-  ~World_() { for (Obj *o : objs) if (o) o->destroy(); }
+  // after an oracle failure the objects are left alone (forked child): finalising e.g. two objects that share a
+  // string would replace the oracle's verdict by the sanitizer's
+  ~World_() { if (std::uncaught_exceptions()) return; for (Obj *o : objs) if (o) o->destroy(); }
 };
 
 static void check_listing(Ctx &c, int kind, const Snapshot &s) {
@@ -1121,7 +1124,7 @@ static void run_history(Ctx &c, int flavour, int kind) {
         } else {
           // the value read back must be a function of the value given, not of the previous state
           Obj *f = make_obj(flavour, kind);
-          struct Guard { Obj *o; ~Guard() { o->destroy(); } } guard{f};
+          struct Guard { Obj *o; ~Guard() { if (!std::uncaught_exceptions()) o->destroy(); } } guard{f};
           int r2 = apply(f, name.c_str(), val);
           Snapshot fs = snapshot(c, kind, f);
           c.logf("    on a fresh object: returns %d, reads %s", r2, printable(fs[target_prop].val, 80).c_str());
